@@ -152,6 +152,27 @@ def campaign(ctx):
             ctx.sample("accepted-converted", case)
         ctx.fail_all(r.get("fails", []), case)
     ctx.run_given(case_strategy(ctx.thorough), body, max_examples=ctx.n(1500, 20000))
+    # every builtin target x extreme scalars (non-finite and out-of-range numbers in every numeric type and spelling, huge / tiny
+    # magnitudes, empty and odd text): enumerated completely on every run, through a field, an Optional and a list item
+    F, D = (lambda v: {"t": "float", "v": v}), (lambda v: {"t": "decimal", "v": v})
+    extreme = [F("nan"), F("inf"), F("-inf"), F("1e308"), F("-1e308"), F("5e-324"), F("1e22"), F("-0.0"),
+               D("NaN"), D("sNaN"), D("Infinity"), D("-Infinity"), D("1E+309"), D("-1E+400"), D("1E+4000"), D("1E-400"), D("9" * 400), D("0E+400"),
+               gen._int_spec(10 ** 400), gen._int_spec(-(10 ** 400)), gen._int_spec(2 ** 63), gen._int_spec(-(2 ** 63) - 1), gen._int_spec(10 ** 18),
+               "nan", "inf", "-inf", "1e400", "-1e400", "1E+4000", "1e-400", "", " ", "\x00", "0x10", "1_000", "١٢٣", "9" * 400, "-", "+", ".", "e5", "1e", "--1",
+               {"t": "bytes", "v": "fffe"}, {"t": "bytes", "v": ""}, {"t": "bytes", "v": "6e616e"}, {"t": "complex", "re": "nan", "im": "inf"}, {"t": "complex", "re": "1e308", "im": "0.0"},
+               True, None, {"t": "list", "v": []}, {"t": "dict", "v": []}, {"t": "timedelta", "v": [999999999, 0, 0]}, {"t": "date", "v": "0001-01-01"}, {"t": "date", "v": "9999-12-31"},
+               {"t": "datetime", "v": "0001-01-01T00:00:00"}, {"t": "datetime", "v": "9999-12-31T23:59:59"}]
+    idx = 0
+    for o in gen.LEAF_ORIGINS:
+        leaf = {"k": "leaf", "o": o}
+        for shape, spec in (("field", leaf), ("opt", {"k": "opt", "a": leaf, "m": "annotate"}), ("item", {"k": "list", "a": leaf})):
+            for v in extreme:
+                idx += 1
+                if idx % ctx.nshards != ctx.shard:
+                    continue
+                ctx.ev()
+                body({"type": spec, "value": {"t": "list", "v": [v]} if shape == "item" else v, "options": {}, "entry": ("schema", "param", "call", "return")[idx % 4]})
+    ctx.extra["extreme_scalar_grid_exhaustive"] = True
     fuzz_tier(ctx, run_case)
 
 
